@@ -194,10 +194,11 @@ func (e *Error) getIndicator(line string) string {
 	return fmt.Sprintf("%s^%s", strings.Repeat(" ", sw), strings.Repeat("~", uw))
 }
 
-var lineBreaksReplacer = strings.NewReplacer("\r\n", " ", "\n", " ", "\r", " ", "\u0085", " ", "\u2028", " ", "\u2029", " ")
+var lineBreaksReplacer = strings.NewReplacer("\r\n", " ", "\n", " ", "\r", " ", "\u0085", " ", "\u2028", " ", "\u2029", " ", "\x1b", " ")
 
 // replaceLineBreaks replaces all line breaks in the string with white spaces. It is used for embedding an error
-// message from libraries in a message of Error since the message must be in one line.
+// message from libraries in a message of Error since the message must be in one line. Escape characters are also
+// replaced since escape sequences at the end of line are removed by the problem matcher.
 func replaceLineBreaks(s string) string {
 	return lineBreaksReplacer.Replace(s)
 }
